@@ -4,7 +4,7 @@
     the files sbmodel.ml / sbmodel.mli are written there. *)
 From Coq Require Import Extraction ExtrOcamlBasic.
 From SB Require Import Base.Prelude Gen.Generated Model.Codec Model.Colors Spec.CodecSpec
-  Model.Crc Model.Container Spec.CrcSpec Spec.ContainerSpec.
+  Model.Crc Model.Container Spec.CrcSpec Spec.ContainerSpec Model.Loaders.
 
 Extraction Language OCaml.
 
@@ -15,4 +15,4 @@ Extraction "sbmodel.ml"
   (* C04 C05 *)
   crc_update file_crc crc_spec zero_field
   parser_init rewind seek_to_next_block find_first read_current_block read_current_block_ex block_valid
-  init_spec all_records find_spec tail_error body_of.
+  init_spec all_records find_spec tail_error body_of load.
